@@ -95,12 +95,19 @@ namespace c20
     std::function<bool(const AnyC&)> ok;                    // documented preconditions on the source
     std::function<void(const AnyC&, AnyC&)> fn;             // target.convert(source)
   };
+  // cross-type clone target<DT2,IT2>.clone(source<DT,IT>, mode) (Container::clone template), same kind
+  struct XClone
+  {
+    Key from, to;
+    std::function<void(const AnyC&, AnyC&, int)> fn;
+  };
   struct Registry
   {
     std::map<int, Key> keys;
     std::map<int, std::function<P()>> defaults;
     std::map<int, std::function<P(Env&)>> ctors;
     std::vector<Conv> convs;
+    std::vector<XClone> xclones;
   };
   Registry& reg(); // hist.cpp
 } // namespace c20
